@@ -164,6 +164,28 @@ theorem kmp_lps_source_is_border_table (p : List Nat) (hp : 0 < p.length) (h64 :
 
 example : Gen.SrcKmpLps.lps [1, 2, 1, 2, 3] = Rs.Res.ok [0, 0, 1, 2, 0] := by decide
 
+/-- **`fn delta` of `kmp.rs`, as written, is the mirror model `Kmp.delta`** over the failure table (for every non-empty
+pattern, every automaton state `q ≤ m` and every symbol): the `while q == m || (pattern[q] != a && q > 0)` loop with its
+guarded read, `lps[q - 1]`, and the checked `q += 1` never panic, the fuel `q + 1` suffices. Together with
+`kmp_lps_source_eq_model` the whole automaton of KMP is tied to the source text by theorems; only the iterator glue
+`Matches::next` (`q = delta(q, c); if q == m { yield 1 + i - m }`) stays tied by the correspondence run. -/
+theorem kmp_delta_source_eq_model (p : List Nat) (hp : 0 < p.length) (h64 : p.length < 2 ^ 64) (q a : Nat)
+    (hq : q ≤ p.length) :
+    Gen.SrcKmpLps.delta p.length (Kmp.lps p) p q a = Rs.Res.ok (Kmp.delta p (Kmp.lps p) q a) :=
+  GenSrcKmpLps.delta_eq_model p hp h64 q a hq
+
+/-- generated code = specification: if `q` is the longest prefix of `p` that is a suffix of the text read so far, the
+translated `delta` returns, without panic, the longest such prefix after reading `a`. -/
+theorem kmp_delta_source_spec (p pre : List Nat) (hp : 0 < p.length) (h64 : p.length < 2 ^ 64) (q a : Nat)
+    (hmax : Kmp.MaxPS p pre q) :
+    ∃ q', Gen.SrcKmpLps.delta p.length (Kmp.lps p) p q a = Rs.Res.ok q' ∧ Kmp.MaxPS p (pre ++ [a]) q' := by
+  have hq : q ≤ p.length := hmax.1.1
+  refine ⟨_, GenSrcKmpLps.delta_eq_model p hp h64 q a hq, ?_⟩
+  obtain ⟨hspec, hlen⟩ := Kmp.lps_spec p hp
+  exact Kmp.advance_spec p (Kmp.lps p) pre a true hp hspec q (by omega) (Or.inl rfl) hmax
+
+example : Gen.SrcKmpLps.delta 5 [0, 0, 0, 1, 2] [1, 2, 2, 1, 2] 5 2 = Rs.Res.ok 3 := by decide
+
 /-- **`pub fn masks` of `shift_and.rs`, as written, is the mirror model `ShiftAnd.masksLoop`**, for every pattern of
 bytes (no length bound: `masks` itself never panics, the running bit is shifted out after the 64th symbol): the returned
 array is the model's mask function tabulated over 0..255, the returned accept mask is the model's. -/
